@@ -195,3 +195,109 @@ class StepModel(object):
                             seen.add(s2)
                             todo.append(s2)
         return trans, seen
+
+
+# ---------------------------------------------------------------------------------------------------------------------
+# reconfiguration between steps: SetGenerationMonitor(monitor) with an initially empty Monitor and new=False
+
+def _is_super_call(c, mname):
+    """super(...).<mname>(...) / <Base>.<mname>(self, ...)"""
+    if not (isinstance(c, ast.Call) and isinstance(c.func, ast.Attribute) and c.func.attr == mname):
+        return False
+    v = c.func.value
+    if isinstance(v, ast.Call) and isinstance(v.func, ast.Name) and v.func.id == 'super':
+        return True
+    return isinstance(v, ast.Name) and v.id[:1].isupper()
+
+
+def monitor_swap(model, cls, state, source, mname='SetGenerationMonitor', _from=None, _depth=0):
+    """all bookkeeping states reachable by self.<mname>(monitor) from `state`, for `monitor` an initially empty Monitor
+    instance and new=False.  Returns [((L, E), path descriptions)].
+    Transitions read from the source: `self._stepmon = <new>` empties the log seen by the solver (L := 0) and a later
+    `.prepend(...)` restores the old records (what is prepended is decided by C04.g); `self._stepmon(...)` is L+1;
+    stores to (_)energy_history as in _Step; a super call continues in the next class of the MRO."""
+    from .. import terms as T
+    if _depth > 3:
+        raise AnalysisError('%s: super chain deeper than 3' % mname)
+    mro = model.mro(cls)
+    if _from is not None:
+        mro = mro[mro.index(_from) + 1:]
+    owner = next((k for k in mro if mname in k.methods), None)
+    if owner is None:
+        raise AnalysisError('no %s on %s' % (mname, cls.name))
+    m = owner.methods[mname]
+    sn = selfname_of(m)
+    params = [a.arg for a in m.node.args.args]
+    monp = params[1] if len(params) > 1 else 'monitor'
+    newp = params[2] if len(params) > 2 else 'new'
+
+    def rel(n):
+        if isinstance(n, ast.Call) and (self_call(n, '_stepmon', sn) or _is_super_call(n, mname) or (isinstance(n.func, ast.Attribute) and n.func.attr == 'prepend')):
+            return True
+        if isinstance(n, ast.Attribute) and n.attr in ('energy_history', '_energy_history', '_stepmon') and isinstance(n.ctx, ast.Store):
+            return True
+        return isinstance(n, ast.Assign) and len(n.targets) == 1 and isinstance(n.targets[0], ast.Name)
+    paths = [p for p in enumerate_paths(m.node, relevant=rel, unroll=(0, 1)) if p.exit != 'raise']
+    out = []
+
+    def truth(tt, st):
+        k = tt[0] if isinstance(tt, tuple) and tt else None
+        if k in ('and', 'or'):
+            vals = [truth(v, st) for v in tt[1:]]
+            if k == 'and':
+                return False if any(v is False for v in vals) else (True if all(v is True for v in vals) else None)
+            return True if any(v is True for v in vals) else (False if all(v is False for v in vals) else None)
+        if k == 'not':
+            v = truth(tt[1], st)
+            return None if v is None else (not v)
+        if tt == ('name', newp):
+            return False
+        if k == 'cmp' and tt[1] in ('is', '==', 'isnot', '!=') and ('name', monp) in tt[2:] and ('const', None) in tt[2:]:
+            return tt[1] in ('isnot', '!=')      # a monitor instance is given
+        if k == 'call' and T.show(tt[1]) == 'isinstance' and len(tt[2]) == 2 and tt[2][0] == ('name', monp):
+            kinds = T.show(tt[2][1])
+            return 'Monitor' in kinds.replace('(', ' ').replace(')', ' ').replace(',', ' ').split()
+        try:
+            return _term_truth(tt, st, source, sn, True)
+        except AnalysisError:
+            return None        # tests on which monitor object this is: both ways
+
+    def run(events, i, L, E, Lold, bld, trail):
+        while i < len(events):
+            e = events[i]
+            i += 1
+            if e[0] == 'cond':
+                tv = truth(T.simp(bld.t(e[1])), (L, E))
+                if tv is not None and tv != e[2]:
+                    return
+            elif e[0] in ('stmt', 'partial'):
+                st = e[1]
+                sup = calls_where(st, lambda c: _is_super_call(c, mname), include_lambda=False)
+                if sup:
+                    for (s2, tr2) in monitor_swap(model, cls, (L, E), source, mname, _from=owner, _depth=_depth + 1):
+                        run(events, i, s2[0], s2[1], Lold, bld.copy(), trail + ['super -> %s' % (s2,)])
+                    return
+                for c in calls_where(st, lambda c: self_call(c, '_stepmon', sn), include_lambda=False):
+                    L += 1
+                if calls_where(st, lambda c: isinstance(c.func, ast.Attribute) and c.func.attr == 'prepend', include_lambda=False) and Lold is not None:
+                    L += Lold
+                    Lold = None
+                if isinstance(st, ast.Assign) and len(st.targets) >= 1 and any(is_self_attr(tg, '_stepmon', sn) for tg in st.targets):
+                    Lold = L
+                    L = 0
+                    continue
+                if isinstance(st, ast.Assign) and len(st.targets) == 1 and is_self_attr(st.targets[0], None, sn) and \
+                        st.targets[0].attr in ('energy_history', '_energy_history'):
+                    v = st.value
+                    if isinstance(v, ast.Constant) and v.value is None:
+                        E = None
+                    elif isinstance(v, ast.BinOp) and isinstance(v.op, ast.Add) and is_self_attr(v.left, 'energy_history', sn) and isinstance(v.right, ast.List):
+                        E = (L if E is None else E) + len(v.right.elts)
+                    else:
+                        raise AnalysisError('unrecognised energy-history update `%s`' % unparse(st))
+                elif isinstance(st, ast.Assign) and len(st.targets) == 1 and isinstance(st.targets[0], ast.Name):
+                    bld.exec_stmt(st)
+        out.append(((L, E), trail))
+    for p in paths:
+        run(p.events, 0, state[0], state[1], None, T.Builder(), ['%s.%s: %s' % (owner.name, mname, p.describe(5))])
+    return out
